@@ -366,7 +366,7 @@ def compare_module(mo, chunk_norm, frag_items):
                 prm = [(p[1], vparse.pp_expr(p[2])) for p in it[3][1:]]
                 if (it[1], it[2], conns) != (f['mod'], f['iname'], [tuple(c) for c in f['conns']]):
                     diffs.append(f'instance {it[1]} {it[2]} {conns} / model {f["mod"]} {f["iname"]} {f["conns"]}')
-                if [p[0] for p in prm] != [p[0] for p in f['params']]:
+                if [(p[0], str(p[1])) for p in prm] != [(p[0], str(p[1])) for p in f['params']]:
                     diffs.append(f'instance params {prm} / model {f["params"]}')
         if not diffs and k != len(rest):
             diffs.append(f'{len(rest) - k} extra items after the children')
